@@ -1,3 +1,4 @@
+import MdsVerif.Gen.Small
 /-!
 # Model of `mstr.Trunc` and `mstr.CompareNatural` (mstr/mstr.go)
 
@@ -8,6 +9,12 @@ three cases, then `parseStr` on both.  Go's `int` is 64-bit two's complement:
 `parseInt` accumulates modulo 2^64 and the values are compared as signed
 numbers, exactly as the compiled code does (so the model is faithful for digit
 runs of any length; the theorems state the no-overflow hypothesis).
+
+The UTF-8 byte tests of `Trunc` (`&0xc0 == 0x80`, `&0xc0 == 0xc0`), its `n >= len(s)` test, the digit
+bounds of `isDigit`, the `'0'` and the `v*10 + d` of `parseInt` and its `i > 0` are definitions of
+`MdsVerif.Gen.Small`, regenerated from mstr/mstr.go on every run by `extract/small.go`;
+`Props.C20.C20_current` pins them (and the `n > 0` guards and `n-1` indices of `Trunc`, which the
+structural recursion of `backup`/`skipLead` encodes).
 -/
 namespace MdsVerif.Model.Mstr
 
@@ -22,9 +29,9 @@ deriving Repr, DecidableEq
 /-! ### Trunc -/
 
 /-- `b&0xc0 == 0x80` -/
-def isCont (b : UInt8) : Bool := b &&& 0xc0 == 0x80
+def isCont (b : UInt8) : Bool := Gen.Small.truncIsCont b
 /-- `b&0xc0 == 0xc0` -/
-def isLead (b : UInt8) : Bool := b &&& 0xc0 == 0xc0
+def isLead (b : UInt8) : Bool := Gen.Small.truncIsLead b
 
 /-- `for n > 0 && s[n-1]&0xc0 == 0x80 { n-- }` -/
 def backup (s : Bytes) : Nat → Res Nat
@@ -54,7 +61,7 @@ def cut (s : Bytes) (n : Nat) : Res Nat :=
   | .bounds => .bounds
 
 def trunc (s : Bytes) (n : Int) : Res Bytes :=
-  if n ≥ s.length then .ok s
+  if Gen.Small.truncWhole n s.length then .ok s
   else if n < 0 then .bounds        -- no loop runs, `s[:n]` panics
   else
     match cut s n.toNat with
@@ -65,7 +72,7 @@ def trunc (s : Bytes) (n : Int) : Res Bytes :=
 /-! ### CompareNatural -/
 
 /-- `b >= '0' && b <= '9'` -/
-def isDigit (b : UInt8) : Bool := b ≥ 0x30 && b ≤ 0x39
+def isDigit (b : UInt8) : Bool := Gen.Small.isDigit b
 
 def two64 : Nat := 18446744073709551616
 
@@ -77,13 +84,13 @@ Returns the 64-bit pattern of `v`, the number of digits consumed and `s[i:]`. -/
 def digitsLoop : Bytes → Nat → Nat → Nat × Nat × Bytes
   | [], v, i => (v, i, [])
   | b :: t, v, i =>
-    if isDigit b then digitsLoop t ((v * 10 + (b - 0x30).toNat) % two64) (i + 1)
+    if isDigit b then digitsLoop t (Gen.Small.parseIntStep v (b - Gen.Small.digitZero).toNat % two64) (i + 1)
     else (v, i, b :: t)
 
 /-- `parseInt(s) = (v, s[i:], i > 0)` -/
 def parseInt (s : Bytes) : Int × Bytes × Bool :=
   let (v, i, r) := digitsLoop s 0 0
-  (toSigned v, r, i > 0)
+  (toSigned v, r, Gen.Small.parseIntOk i)
 
 /-- `parseStr(s) = (s[:i], s[i:])`, `i` the first digit position -/
 def parseStr : Bytes → Bytes × Bytes
